@@ -226,6 +226,135 @@ def generate(chk, quick):
     return lines
 
 
+# ------------------------------------------------------------------------------------------------ constants of every kind on every kind of path
+SPECIAL_PATHS = [("ipv4-addr", [{"s": "key", "name": "value", "i": ""}]), ("ipv6-addr", [{"s": "key", "name": "value", "i": ""}]),
+                 ("windows-registry-key", [{"s": "key", "name": "key", "i": ""}]),
+                 ("windows-registry-key", [{"s": "idx", "name": "values", "i": "*"}, {"s": "key", "name": "name", "i": ""}])]
+GENERIC_PATHS = [("file", [{"s": "key", "name": "name", "i": ""}]), ("x-y", [{"s": "key", "name": "p-q", "i": ""}, {"s": "idx", "name": "r", "i": "1"}])]
+CONST_POOLS = {
+    "hex": [{"t": "hex", "s": x} for x in ("01020304", "0a000001", "AB", "ab", "00ff", "7f000001")],
+    "bin": [{"t": "bin", "s": x} for x in ("AA==", "aa==", "AQIDBA==", "aGVsbG8=", "SEtMTQ==", "aGtsbQ==")],
+    "ts": [IP.ts(0), IP.ts(1), IP.ts(86400)],
+    "bool": [{"t": "bool", "s": "true"}, {"t": "bool", "s": "false"}],
+    "int": [IP.I(0), IP.I(1), IP.I(16909060), IP.I(2130706433)],
+    "float": [{"t": "float", "s": x} for x in ("1.0", "0.5", "16909060.0")],
+    "str": [{"t": "str", "u": IP.units(x)} for x in ("a", "A", "1.2.3.4", "01020304", "HKLM\\a", "hklm\\a", "::1")],
+}
+
+
+def denoted(c):
+    """what a constant denotes (two constants are the same value exactly when these are equal)"""
+    import base64
+    from fractions import Fraction
+    t = c["t"]
+    if t == "int":
+        return ("num", Fraction(c["v"]))
+    if t == "float":
+        return ("num", Fraction(c["s"]))
+    if t == "hex":
+        return ("bytes", bytes.fromhex(c["s"]))
+    if t == "bin":
+        return ("bytes", base64.b64decode(c["s"]))
+    if t == "ts":
+        return ("ts", tuple(c["us"]))
+    if t == "bool":
+        return ("bool", c["s"])
+    if t == "str":
+        return ("str", tuple(c["u"]))
+    raise ValueError(t)
+
+
+def abstract_pair(p, q):
+    """rename paths and constants of two patterns into the vocabulary of spec/PatternSem.tla, jointly and injectively.  Sound for patterns that use only =, != and IN on one object
+    type: such comparisons depend only on which constants are the same value, and every abstract observation has a real counterpart.  Returns (p', q') or None."""
+    special = {(t, json.dumps(st)) for t, st in SPECIAL_PATHS}
+    paths, consts, types = {}, {}, set()
+
+    def conv(a):
+        k = a["k"]
+        if k == "cmp":
+            if a["op"] not in ("=", "!=", "IN"):
+                raise KeyError("op")
+            types.add(a["type"])
+            pk = json.dumps(a["path"])
+            items = a["const"]["items"] if a["const"]["t"] == "list" else [a["const"]]
+            if (a["type"], pk) in special and any(i["t"] == "str" for i in items):
+                raise KeyError("documented canonicalisation applies")
+            if pk not in paths:
+                if len(paths) == 2:
+                    raise KeyError("paths")
+                paths[pk] = "bc"[len(paths)]
+            out = []
+            for i in items:
+                d = denoted(i)
+                if d not in consts:
+                    if len(consts) == 4:
+                        raise KeyError("constants")
+                    consts[d] = [1, 2, 0, 3][len(consts)]
+                out.append(IP.I(consts[d]))
+            return IP.cmp_(paths[pk], a["op"], {"t": "list", "items": out} if a["const"]["t"] == "list" else out[0], a["neg"], "a")
+        if k in ("paren", "obs"):
+            return {"k": k, "e": conv(a["e"])}
+        if k == "qual":
+            return {"k": "qual", "e": conv(a["e"]), "q": a["q"]}
+        return {"k": k, "args": [conv(x) for x in a["args"]]}
+    try:
+        pa, qa = conv(p), conv(q)
+    except KeyError:
+        return None
+    if len(types) != 1 or not (IP.in_vocab(pa) and IP.in_vocab(qa)):
+        return None
+    return pa, qa
+
+
+def constant_kind_lines(chk, quick):
+    """the same comparison with two constants of one kind (or of two kinds with the same text) on special and ordinary paths, alone and inside AND / OR / FOLLOWEDBY; judged on the
+    bounded universe after a joint renaming of paths and constants"""
+    rng = chk.rng
+    lines = []
+    n = 0
+    for typ, steps in SPECIAL_PATHS + GENERIC_PATHS:
+        for kind, pool in sorted(CONST_POOLS.items()):
+            pairs = [(a, b) for a in pool for b in pool if a is not b]
+            other = [c for k2, pl in sorted(CONST_POOLS.items()) if k2 != kind for c in pl]
+            pairs += [(rng.choice(pool), rng.choice(other)) for _ in range(2)]
+            rng.shuffle(pairs)
+            # constants whose text looks alike, or looks like what the special paths canonicalise (an address, a key in another case), come first
+            text = lambda c: "".join(map(chr, c["u"])) if c["t"] == "str" else str(c.get("s", c.get("v", c.get("us"))))  # noqa
+            alike = lambda a, b: text(a).lower() == text(b).lower() or text(a).isdigit() or text(b).isdigit()  # noqa
+            pairs.sort(key=lambda ab: not alike(*ab))
+            for c1, c2 in pairs[:6 if quick else 40]:
+                op = rng.choice(["=", "=", "!=", "IN"])
+                mk = lambda c: {"k": "cmp", "type": typ, "path": copy.deepcopy(steps), "prop": "*", "op": op, "neg": False,  # noqa
+                                "const": {"t": "list", "items": [c, rng.choice(pool)]} if op == "IN" else c}
+                x, y = mk(c1), mk(c2)
+                side = {"k": "cmp", "type": typ, "path": [{"s": "key", "name": "other", "i": ""}], "prop": "other", "op": "=", "neg": False, "const": IP.I(1)}
+                ctx = rng.choice(["alone", "and", "or", "fb"])
+                wrapc = {"alone": lambda e: {"k": "obs", "e": e}, "and": lambda e: {"k": "obs", "e": {"k": "and", "args": [e, copy.deepcopy(side)]}},
+                         "or": lambda e: {"k": "obs", "e": {"k": "or", "args": [copy.deepcopy(side), e]}},
+                         "fb": lambda e: {"k": "fb", "args": [{"k": "obs", "e": e}, {"k": "obs", "e": copy.deepcopy(side)}]}}[ctx]
+                p, q = wrapc(x), wrapc(y)
+                tp, tq = IP.render(p), IP.render(q)
+                if not (valid(tp) and valid(tq)):
+                    chk.notes["generated_invalid_skipped"] = chk.notes.get("generated_invalid_skipped", 0) + 1
+                    continue
+                n += 1
+                v0, exc0 = equiv(tp, tp)
+                lines.append({"kind": "total", "exc": exc0, "tp": tp, "tq": tp, "invocab": False, "how": "constant_kinds:self", "ast": p})
+                v, exc = equiv(tp, tq)
+                ab = abstract_pair(p, q)
+                how = "constant_kinds:%s:%s/%s:%s" % ("special_path" if (typ, steps) in SPECIAL_PATHS else "ordinary_path", c1["t"], c2["t"], ctx)
+                if exc != "none":
+                    lines.append({"kind": "total", "exc": exc, "tp": tp, "tq": tq, "invocab": False, "how": how, "ast": p})
+                elif ab is None:
+                    lines.append({"kind": "pair", "p": {"k": "x"}, "q": {"k": "x"}, "verdict": v, "exc": exc, "invocab": False, "expect": "none", "how": how, "tp": tp, "tq": tq})
+                else:
+                    lines.append({"kind": "pair", "p": IP.to_spec(ab[0]), "q": IP.to_spec(ab[1]), "verdict": v, "exc": exc, "invocab": True, "expect": "none", "how": how, "tp": tp, "tq": tq,
+                                  "renamed": [IP.render(ab[0]), IP.render(ab[1])]})
+    chk.stages["S3_constant_kinds"] = {"pairs": n}
+    return lines
+
+
 def relation_line(rng, batch):
     """reflexive / symmetric / transitive on a batch (with a rewritten copy of each member so that the relation is not empty) + find_equivalent_patterns"""
     from stix2.equivalence.pattern import find_equivalent_patterns
@@ -306,7 +435,7 @@ def run(chk):
     chk.stages["S1_negative_config"] = {"non_law_distinguished_as_required": bool(neg.invariant_violated)}
     if not neg.invariant_violated:
         chk.machinery("Neg_PatternLaws: the semantics does not distinguish a non-law")
-    lines = generate(chk, quick)
+    lines = generate(chk, quick) + constant_kind_lines(chk, quick)
     import collections
     for ln in lines:
         chk.case([ln["kind"], ln.get("how", ""), ln.get("verdict"), ln.get("invocab"), ln.get("exc", "none")])
